@@ -225,3 +225,560 @@ Proof.
       - destruct (IH Hc') as [c [Hc Hiff]]. exists c; split; [right; exact Hc|exact Hiff]. }
     exists c, l. split; [exact Hc|]. split; [apply Hiff, Hl|reflexivity].
 Qed.
+
+Lemma norm_clause_spec c :
+  (forall l, In l (norm_clause c) <-> In l c) /\ Sorted lbl_le (norm_clause c) /\ no_adj (norm_clause c).
+Proof.
+  split; [intros l; apply norm_clause_In|]. split.
+  - apply dedup_sorted, sort_clause_sorted.
+  - apply dedup_no_adj.
+Qed.
+
+Lemma cnf_sem_norm a cs : cnf_sem a (map norm_clause cs) = cnf_sem a cs.
+Proof.
+  induction cs as [|c t IH]; [reflexivity|].
+  unfold cnf_sem in *. cbn [map forallb]. rewrite IH. f_equal.
+  apply clause_sem_ext. intros l; apply norm_clause_In.
+Qed.
+
+Lemma Forall2_map_norm cs :
+  Forall2 (fun c c' => (forall l, In l c' <-> In l c) /\ Sorted lbl_le c' /\ no_adj c')
+          cs (map norm_clause cs).
+Proof. induction cs as [|c t IH]; constructor; [apply norm_clause_spec|exact IH]. Qed.
+
+(* Cnf::new keeps every clause's literal set (sorted by label, no two adjacent equal
+   literals), the number of clauses, the denotation; num_vars is 1 + the largest label, or 0. *)
+Theorem cnf_new_sem cs :
+  Forall2 (fun c c' => (forall l, In l c' <-> In l c) /\ Sorted lbl_le c' /\ no_adj c')
+          cs (clauses (cnf_new cs)) /\
+  nv_spec cs (num_vars (cnf_new cs)) /\
+  (forall a, cnf_sem a (clauses (cnf_new cs)) = cnf_sem a cs).
+Proof.
+  split; [apply Forall2_map_norm|]. split.
+  - cbn [cnf_new num_vars]. apply nv_spec_ext with (cs' := map norm_clause cs).
+    + clear. induction cs as [|c t IH]; constructor; [intros l; apply norm_clause_In|exact IH].
+    + apply cnf_nv_spec.
+  - intros a. apply cnf_sem_norm.
+Qed.
+
+(* the sort is the stable one: literals of one label keep their order (before dedup) *)
+Lemma sort_is_stable c k :
+  filter (fun y => fst y =? k) (sort_clause c) = filter (fun y => fst y =? k) c.
+Proof. apply sort_clause_stable. Qed.
+
+Lemma sort_clause_sorted_id l : Sorted lbl_le l -> sort_clause l = l.
+Proof.
+  induction l as [|x t IH]; intros Hs; [reflexivity|].
+  inversion Hs as [|? ? Hst Hhd]; subst.
+  cbn [sort_clause fold_right]. fold (sort_clause t). rewrite IH by exact Hst.
+  destruct t as [|y t']; [reflexivity|]. cbn [insert_lit].
+  inversion Hhd as [|? ? Hle]; subst. unfold lbl_le in Hle.
+  destruct (N.leb_spec (fst x) (fst y)); [reflexivity|lia].
+Qed.
+
+Theorem cnf_new_idempotent cs : cnf_new (clauses (cnf_new cs)) = cnf_new cs.
+Proof.
+  unfold cnf_new. cbn [clauses].
+  assert (E : map norm_clause (map norm_clause cs) = map norm_clause cs).
+  { rewrite map_map. apply map_ext. intros c. unfold norm_clause at 1.
+    destruct (norm_clause_spec c) as (_ & Hs & Hn).
+    rewrite sort_clause_sorted_id by exact Hs. apply dedup_fixpoint, Hn. }
+  rewrite E. reflexivity.
+Qed.
+
+Lemma cnf_new_labels_lt cs c l :
+  In c (clauses (cnf_new cs)) -> In l c -> fst l < num_vars (cnf_new cs).
+Proof. intros Hc Hl. exact (proj1 (cnf_nv_spec (map norm_clause cs)) c l Hc Hl). Qed.
+
+(* ------------------------------------------------------------------------------------ *)
+(* eval *)
+Lemma eval_clause_spec a c sat :
+  (forall l, In l c -> (N.to_nat (fst l) < length a)%nat) ->
+  eval_clause a c sat = Some (sat || clause_sem (asg_of_list a) c).
+Proof.
+  revert sat; induction c as [|l t IH]; intros sat Hr; cbn [eval_clause clause_sem existsb].
+  - rewrite orb_false_r; reflexivity.
+  - destruct (nth_error a (N.to_nat (fst l))) as [b|] eqn:E.
+    + rewrite IH by (intros l' Hl'; apply Hr; right; exact Hl'). f_equal.
+      unfold lit_true at 1, asg_of_list. rewrite (nth_error_nth _ _ false E).
+      fold (clause_sem (asg_of_list a) t).
+      destruct (Bool.eqb (snd l) b), sat, (clause_sem (asg_of_list a) t); reflexivity.
+    + apply nth_error_None in E. specialize (Hr l (or_introl eq_refl)). lia.
+Qed.
+
+Lemma eval_clause_out_of_range a c sat :
+  (exists l, In l c /\ (length a <= N.to_nat (fst l))%nat) -> eval_clause a c sat = None.
+Proof.
+  revert sat; induction c as [|l t IH]; intros sat [l' [Hin Hl']]; [destruct Hin|].
+  cbn [eval_clause]. destruct (nth_error a (N.to_nat (fst l))) as [b|] eqn:E; [|reflexivity].
+  destruct Hin as [->|Hin].
+  - apply nth_error_None in Hl'. congruence.
+  - apply IH. exists l'; auto.
+Qed.
+
+Lemma eval_clauses_spec a cs :
+  (forall c l, In c cs -> In l c -> (N.to_nat (fst l) < length a)%nat) ->
+  eval_clauses a cs = Some (cnf_sem (asg_of_list a) cs).
+Proof.
+  induction cs as [|c t IH]; intros Hr; cbn [eval_clauses cnf_sem forallb]; [reflexivity|].
+  rewrite eval_clause_spec by (intros l Hl; apply (Hr c l); [left; reflexivity|exact Hl]).
+  cbn [orb]. destruct (clause_sem (asg_of_list a) c); cbn [andb]; [|reflexivity].
+  apply IH. intros c' l Hc' Hl. apply (Hr c' l); [right; exact Hc'|exact Hl].
+Qed.
+
+(* Cnf::eval on a vector at least num_vars long is the denotation; a shorter vector fails
+   the assert.  No index is ever out of range in the first case. *)
+Theorem eval_spec cs a :
+  (num_vars (cnf_new cs) <= N.of_nat (length a) ->
+     cnf_eval_impl (cnf_new cs) a = Some (cnf_sem (asg_of_list a) cs)) /\
+  (N.of_nat (length a) < num_vars (cnf_new cs) -> cnf_eval_impl (cnf_new cs) a = None).
+Proof.
+  unfold cnf_eval_impl. split; intros H.
+  - destruct (N.ltb_spec (N.of_nat (length a)) (num_vars (cnf_new cs))); [lia|].
+    rewrite eval_clauses_spec.
+    + f_equal. apply cnf_sem_norm.
+    + intros c l Hc Hl. pose proof (cnf_new_labels_lt cs c l Hc Hl). lia.
+  - destruct (N.ltb_spec (N.of_nat (length a)) (num_vars (cnf_new cs))); [reflexivity|lia].
+Qed.
+
+(* ------------------------------------------------------------------------------------ *)
+(* is_sat_partial *)
+Lemma existsb_ext_in {A} (p : A -> bool) c c' :
+  (forall l, In l c' <-> In l c) -> existsb p c' = existsb p c.
+Proof.
+  intros H. apply eq_true_iff_eq. rewrite !existsb_exists.
+  split; intros [l [Hin Ht]]; exists l; split; auto; apply H; auto.
+Qed.
+
+Lemma sat_partial_clause_spec m c : sat_partial_clause m c = existsb (pm_lit_implied m) c.
+Proof.
+  unfold sat_partial_clause.
+  enough (G : forall sat, fold_left (fun sat l => match pm_get m (fst l) with
+             | Some b => if Bool.eqb (snd l) b then true else sat | None => sat end) c sat
+             = sat || existsb (pm_lit_implied m) c) by (rewrite G; reflexivity).
+  induction c as [|l t IH]; intros sat; cbn [fold_left existsb].
+  - rewrite orb_false_r; reflexivity.
+  - rewrite IH. unfold pm_lit_implied at 2.
+    destruct (pm_get m (fst l)) as [b|].
+    + destruct (snd l), b, sat; reflexivity.
+    + destruct sat; reflexivity.
+Qed.
+
+Lemma pm_lit_implied_iff m l : pm_lit_implied m l = true <-> pm_get m (fst l) = Some (snd l).
+Proof.
+  unfold pm_lit_implied. destruct (pm_get m (fst l)) as [b|].
+  - rewrite eqb_true_iff. split; [intros ->; reflexivity|intros H; inversion H; reflexivity].
+  - split; discriminate.
+Qed.
+
+(* true exactly when every clause has a literal made true by the partial model *)
+Theorem is_sat_partial_spec cs m :
+  is_sat_partial (cnf_new cs) m = true <->
+  forall c, In c cs -> exists l, In l c /\ pm_get m (fst l) = Some (snd l).
+Proof.
+  unfold is_sat_partial. cbn [cnf_new clauses]. rewrite forallb_forall. split.
+  - intros H c Hc. specialize (H (norm_clause c) (in_map _ _ _ Hc)).
+    rewrite sat_partial_clause_spec in H. apply existsb_exists in H. destruct H as [l [Hl Hi]].
+    exists l. split; [apply norm_clause_In, Hl|apply pm_lit_implied_iff, Hi].
+  - intros H c' Hc'. apply in_map_iff in Hc'. destruct Hc' as [c [<- Hc]].
+    rewrite sat_partial_clause_spec. apply existsb_exists.
+    destruct (H c Hc) as [l [Hl Hg]]. exists l. split; [apply norm_clause_In, Hl|apply pm_lit_implied_iff, Hg].
+Qed.
+
+(* hence the partial model implies the formula: every total extension satisfies it *)
+Theorem is_sat_partial_sound cs m (a : asg) :
+  is_sat_partial (cnf_new cs) m = true ->
+  (forall v b, pm_get m v = Some b -> a v = b) -> cnf_sem a cs = true.
+Proof.
+  intros H Hext. rewrite is_sat_partial_spec in H.
+  unfold cnf_sem. apply forallb_forall. intros c Hc.
+  destruct (H c Hc) as [l [Hl Hg]]. apply existsb_exists. exists l. split; [exact Hl|].
+  unfold lit_true. rewrite (Hext _ _ Hg). apply eqb_reflx.
+Qed.
+
+(* ------------------------------------------------------------------------------------ *)
+(* condition *)
+Lemma lit_eqb_sym a b : lit_eqb a b = lit_eqb b a.
+Proof.
+  unfold lit_eqb. rewrite N.eqb_sym. f_equal. destruct (snd a), (snd b); reflexivity.
+Qed.
+
+Lemma cond_clause_spec x c :
+  cond_clause x c = if clause_contains c x then None
+                    else Some (filter (fun l => negb (lit_eqb l (lit_neg x))) c).
+Proof.
+  induction c as [|l t IH]; [reflexivity|].
+  cbn [cond_clause clause_contains existsb filter].
+  change ((fst l =? fst x) && Bool.eqb (snd l) (snd x)) with (lit_eqb l x).
+  rewrite (lit_eqb_sym x l). destruct (lit_eqb l x) eqn:E; cbn [orb]; [reflexivity|].
+  assert (E2 : (fst l =? fst x) && negb (Bool.eqb (snd l) (snd x)) = lit_eqb l (lit_neg x)).
+  { unfold lit_eqb, lit_neg; cbn [fst snd]. f_equal. destruct (snd l), (snd x); reflexivity. }
+  rewrite E2. fold (clause_contains t x) in *. rewrite IH.
+  destruct (lit_eqb l (lit_neg x)); cbn [negb]; destruct (clause_contains t x); reflexivity.
+Qed.
+
+(* the syntactic description *)
+Theorem cond_clauses_spec x cs :
+  cond_clauses x cs =
+  map (filter (fun l => negb (lit_eqb l (lit_neg x)))) (filter (fun c => negb (clause_contains c x)) cs).
+Proof.
+  induction cs as [|c t IH]; [reflexivity|].
+  cbn [cond_clauses filter]. rewrite cond_clause_spec.
+  destruct (clause_contains c x); cbn [negb map]; rewrite IH; reflexivity.
+Qed.
+
+Lemma lit_true_upd a x l :
+  lit_true (upd a x) l = if fst l =? fst x then Bool.eqb (snd l) (snd x) else lit_true a l.
+Proof. unfold lit_true, upd. destruct (fst l =? fst x); reflexivity. Qed.
+
+Lemma clause_contains_sem a x c : clause_contains c x = true -> clause_sem (upd a x) c = true.
+Proof.
+  unfold clause_contains, clause_sem. rewrite !existsb_exists. intros [l [Hl He]].
+  apply lit_eqb_eq in He; subst l. exists x. split; [exact Hl|].
+  rewrite lit_true_upd, N.eqb_refl. apply eqb_reflx.
+Qed.
+
+Lemma cond_filter_sem a x c :
+  clause_contains c x = false ->
+  clause_sem a (filter (fun l => negb (lit_eqb l (lit_neg x))) c) = clause_sem (upd a x) c.
+Proof.
+  induction c as [|l t IH]; intros Hc; [reflexivity|].
+  cbn [clause_contains existsb] in Hc. apply orb_false_iff in Hc. destruct Hc as [Hl Ht].
+  fold (clause_contains t x) in Ht. specialize (IH Ht).
+  cbn [filter clause_sem existsb]. fold (clause_sem (upd a x) t).
+  rewrite lit_true_upd. unfold lit_eqb in Hl |- *. unfold lit_neg; cbn [fst snd] in *.
+  rewrite (N.eqb_sym (fst x) (fst l)) in Hl.
+  destruct (fst l =? fst x) eqn:E; cbn [andb negb] in *.
+  - assert (Es : Bool.eqb (snd l) (negb (snd x)) = true) by (destruct (snd l), (snd x); cbn in *; congruence).
+    rewrite Es. cbn [negb].
+    assert (Ef : Bool.eqb (snd l) (snd x) = false) by (destruct (snd l), (snd x); cbn in *; congruence).
+    rewrite Ef. cbn [orb]. exact IH.
+  - cbn [clause_sem existsb]. f_equal. exact IH.
+Qed.
+
+Lemma cond_clauses_sem a x cs : cnf_sem a (cond_clauses x cs) = cnf_sem (upd a x) cs.
+Proof.
+  induction cs as [|c t IH]; [reflexivity|].
+  cbn [cond_clauses]. rewrite cond_clause_spec.
+  cbn [cnf_sem forallb]. fold (cnf_sem (upd a x) t).
+  destruct (clause_contains c x) eqn:E.
+  - rewrite (clause_contains_sem a x c E). cbn [andb]. exact IH.
+  - cbn [cnf_sem forallb]. fold (cnf_sem a (cond_clauses x t)).
+    rewrite (cond_filter_sem a x c E), IH. reflexivity.
+Qed.
+
+(* conditioning on a literal = evaluating under the assignment updated with it; the result
+   is the normal form of: clauses containing the literal dropped, the complementary literal
+   removed from the others (an emptied clause stays as the empty clause) *)
+Theorem condition_spec c x :
+  (forall a, cnf_sem a (clauses (condition c x)) = cnf_sem (upd a x) (clauses c)) /\
+  clauses (condition c x) =
+    map norm_clause (map (filter (fun l => negb (lit_eqb l (lit_neg x))))
+                         (filter (fun cl => negb (clause_contains cl x)) (clauses c))) /\
+  nv_spec (clauses (condition c x)) (num_vars (condition c x)).
+Proof.
+  split; [|split].
+  - intros a. unfold condition. cbn [cnf_new clauses]. rewrite cnf_sem_norm. apply cond_clauses_sem.
+  - unfold condition. cbn [cnf_new clauses]. rewrite cond_clauses_spec. reflexivity.
+  - unfold condition. cbn [cnf_new clauses num_vars]. apply cnf_nv_spec.
+Qed.
+
+(* ------------------------------------------------------------------------------------ *)
+(* AssignmentIter: the reference enumeration (index 0 is the least significant bit) *)
+Fixpoint all_asg (n : nat) : list (list bool) :=
+  match n with
+  | O => [[]]
+  | S k => flat_map (fun t => [false :: t; true :: t]) (all_asg k)
+  end.
+
+(* ripple-carry addition of one bit *)
+Fixpoint addc (cy : bool) (c : list bool) : list bool * bool :=
+  match c with
+  | [] => ([], cy)
+  | b :: t => let r := addc (b && cy) t in (xorb b cy :: fst r, snd r)
+  end.
+
+Lemma fold_half_adder c acc cy :
+  fold_left half_adder c (acc, cy) = (acc ++ fst (addc cy c), snd (addc cy c)).
+Proof.
+  revert acc cy; induction c as [|b t IH]; intros acc cy; cbn [fold_left addc fst snd].
+  - rewrite app_nil_r; reflexivity.
+  - unfold half_adder at 2; cbn [fst snd]. rewrite IH, <- app_assoc. reflexivity.
+Qed.
+
+Lemma ai_incr_addc c : ai_incr c = addc true c.
+Proof.
+  unfold ai_incr. rewrite fold_half_adder. cbn [app]. destruct (addc true c); reflexivity.
+Qed.
+
+Lemma addc_false c : addc false c = (c, false).
+Proof.
+  induction c as [|b t IH]; [reflexivity|].
+  cbn [addc]. rewrite andb_false_r, IH, xorb_false_r. reflexivity.
+Qed.
+
+(* starting from state [a] the iterator yields exactly [post] and then stops *)
+Fixpoint chain (a : list bool) (post : list (list bool)) : Prop :=
+  match post with
+  | [] => snd (addc true a) = true
+  | b :: post' => addc true a = (b, false) /\ chain b post'
+  end.
+
+Lemma chain_lift a post :
+  chain a post ->
+  chain (false :: a) ((true :: a) :: flat_map (fun t => [false :: t; true :: t]) post).
+Proof.
+  revert a; induction post as [|b post' IH]; intros a H; cbn [chain flat_map app] in *.
+  - split.
+    + cbn [addc andb xorb]. rewrite addc_false. reflexivity.
+    + cbn [addc andb snd]. exact H.
+  - destruct H as [Ha Hb]. split.
+    + cbn [addc andb xorb]. rewrite addc_false. reflexivity.
+    + split.
+      * cbn [addc andb xorb]. rewrite Ha. reflexivity.
+      * apply IH, Hb.
+Qed.
+
+Lemma all_asg_chain n :
+  exists rest, all_asg n = repeat false n :: rest /\ chain (repeat false n) rest.
+Proof.
+  induction n as [|k [rest [E Hc]]].
+  - exists []. split; reflexivity.
+  - cbn [all_asg]. rewrite E. cbn [flat_map app repeat].
+    eexists. split; [reflexivity|]. apply chain_lift, Hc.
+Qed.
+
+Lemma all_asg_length n : length (all_asg n) = (2 ^ n)%nat.
+Proof.
+  induction n as [|k IH]; [reflexivity|].
+  cbn [all_asg]. rewrite Nat.pow_succ_r'. rewrite <- IH.
+  generalize (all_asg k) as l. induction l as [|t l IHl]; [reflexivity|].
+  cbn [flat_map app length] in *. lia.
+Qed.
+
+Lemma all_asg_In n a : In a (all_asg n) <-> length a = n.
+Proof.
+  revert a; induction n as [|k IH]; intros a; cbn [all_asg].
+  - cbn [In]. destruct a; cbn [length]; split; intros H; auto; try discriminate.
+    destruct H as [H|[]]; discriminate.
+  - rewrite in_flat_map. split.
+    + intros [t [Ht Hin]]. apply IH in Ht. cbn [In] in Hin.
+      destruct Hin as [<-|[<-|[]]]; cbn [length]; lia.
+    + intros Hl. destruct a as [|b t]; [discriminate|]. cbn [length] in Hl.
+      exists t. split; [apply IH; lia|]. destruct b; cbn [In]; auto.
+Qed.
+
+Lemma all_asg_NoDup n : NoDup (all_asg n).
+Proof.
+  induction n as [|k IH]; cbn [all_asg].
+  - constructor; [intros []|constructor].
+  - induction IH as [|t l Hnin Hnd IHl]; [constructor|].
+    cbn [flat_map app]. constructor; [|constructor].
+    + cbn [In]. intros [H|H]; [discriminate|].
+      apply in_flat_map in H. destruct H as [t' [Ht' Hin]]. cbn [In] in Hin.
+      destruct Hin as [H|[H|[]]]; inversion H; subst; contradiction.
+    + intros H. apply in_flat_map in H. destruct H as [t' [Ht' Hin]]. cbn [In] in Hin.
+      destruct Hin as [H|[H|[]]]; inversion H; subst; contradiction.
+    + exact IHl.
+Qed.
+
+Lemma ai_next_some a n :
+  ai_next {| ai_cur := Some a; ai_n := n |} =
+  (if snd (addc true a) then None else Some (fst (addc true a)),
+   {| ai_cur := Some (fst (addc true a)); ai_n := n |}).
+Proof. unfold ai_next. cbn [ai_cur ai_n]. rewrite ai_incr_addc. reflexivity. Qed.
+
+Lemma ai_collect_chain post : forall a n fuel,
+  chain a post -> (length post < fuel)%nat ->
+  ai_collect fuel {| ai_cur := Some a; ai_n := n |} = Some post.
+Proof.
+  induction post as [|b post' IH]; intros a n fuel Hc Hf; (destruct fuel as [|f]; [cbn [length] in Hf; lia|]);
+    cbn [ai_collect]; rewrite ai_next_some; cbn [chain] in Hc.
+  - rewrite Hc. reflexivity.
+  - destruct Hc as [Ha Hb]. rewrite Ha. cbn [fst snd].
+    rewrite (IH b n f Hb) by (cbn [length] in Hf; lia). reflexivity.
+Qed.
+
+(* the for-loop over AssignmentIter::new(n) sees every assignment of n variables exactly
+   once (and needs 2^n + 1 calls of next) *)
+Theorem assignment_iter_complete n fuel :
+  (2 ^ n < fuel)%nat ->
+  ai_collect fuel (ai_new n) = Some (all_asg n) /\
+  NoDup (all_asg n) /\ length (all_asg n) = (2 ^ n)%nat /\
+  (forall a, In a (all_asg n) <-> length a = n).
+Proof.
+  intros Hf. split; [|split; [apply all_asg_NoDup|split; [apply all_asg_length|apply all_asg_In]]].
+  destruct (all_asg_chain n) as [rest [E Hc]].
+  pose proof (all_asg_length n) as HL. rewrite E in HL |- *. cbn [length] in HL.
+  destruct fuel as [|f]; [lia|]. cbn [ai_collect ai_new ai_next ai_cur ai_n].
+  rewrite (ai_collect_chain rest (repeat false n) n f Hc) by lia. reflexivity.
+Qed.
+
+(* with too little fuel the model reports exhaustion rather than a short list *)
+Lemma ai_collect_short post : forall a n fuel,
+  chain a post -> (fuel <= length post)%nat ->
+  ai_collect fuel {| ai_cur := Some a; ai_n := n |} = None.
+Proof.
+  induction post as [|b post' IH]; intros a n fuel Hc Hf; (destruct fuel as [|f]; [reflexivity|]);
+    cbn [length] in Hf; [lia|].
+  cbn [ai_collect]. rewrite ai_next_some. cbn [chain] in Hc. destruct Hc as [Ha Hb].
+  rewrite Ha. cbn [fst snd]. rewrite (IH b n f Hb) by lia. reflexivity.
+Qed.
+
+(* ------------------------------------------------------------------------------------ *)
+(* wmc *)
+Section WmcProofs.
+  Variable R : Type.
+  Variables (radd rmul : R -> R -> R) (rzero rone : R).
+  Hypothesis radd_assoc : forall a b c, radd a (radd b c) = radd (radd a b) c.
+  Hypothesis radd_0_l : forall a, radd rzero a = a.
+  Hypothesis radd_0_r : forall a, radd a rzero = a.
+  Hypothesis rmul_assoc : forall a b c, rmul a (rmul b c) = rmul (rmul a b) c.
+  Hypothesis rmul_1_l : forall a, rmul rone a = a.
+  Hypothesis rmul_1_r : forall a, rmul a rone = a.
+
+  (* spec: sum over the reference enumeration of [f a] * prod_i w_i(a_i) *)
+  Definition pick (p : bool * (R * R)) : R := if fst p then snd (snd p) else fst (snd p).
+  Definition weight_spec (wv : list (R * R)) (a : list bool) : R :=
+    fold_right (fun p s => rmul (pick p) s) rone (combine a wv).
+  Definition wmc_sum (wv : list (R * R)) (f : list bool -> bool) (l : list (list bool)) : R :=
+    fold_right (fun a s => radd (if f a then weight_spec wv a else rzero) s) rzero l.
+  Definition wmc_spec (n : nat) (wv : list (R * R)) (f : list bool -> bool) : R :=
+    wmc_sum wv f (all_asg n).
+
+  Lemma asg_weight_spec wv a : asg_weight R rmul rone wv a = weight_spec wv a.
+  Proof.
+    unfold asg_weight, weight_spec. fold pick.
+    enough (G : forall l v, fold_left (fun v p => rmul v (pick p)) l v
+                            = rmul v (fold_right (fun p s => rmul (pick p) s) rone l))
+      by (rewrite G; apply rmul_1_l).
+    induction l as [|p t IH]; intros v; cbn [fold_left fold_right].
+    - symmetry; apply rmul_1_r.
+    - rewrite IH, rmul_assoc. reflexivity.
+  Qed.
+
+  Lemma wmc_loop_chain c wv f post : forall a fuel total,
+    chain a post -> (length post < fuel)%nat ->
+    (forall b, In b post -> cnf_eval_impl c b = Some (f b)) ->
+    wmc_loop R radd rmul rone c wv fuel {| ai_cur := Some a; ai_n := N.to_nat (num_vars c) |} total =
+    Some (fold_left (fun t b => if f b then radd t (asg_weight R rmul rone wv b) else t) post total).
+  Proof.
+    induction post as [|b post' IH]; intros a fuel total Hc Hf He;
+      (destruct fuel as [|fu]; [cbn [length] in Hf; lia|]);
+      cbn [wmc_loop]; rewrite ai_next_some; cbn [chain] in Hc.
+    - rewrite Hc. reflexivity.
+    - destruct Hc as [Ha Hb]. rewrite Ha. cbn [fst snd].
+      rewrite (He b (or_introl eq_refl)). cbn [fold_left].
+      destruct (f b); apply IH; auto; cbn [length] in Hf; try lia;
+        intros b' Hb'; apply He; right; exact Hb'.
+  Qed.
+
+  Lemma fold_left_sum wv (f : list bool -> bool) l t :
+    fold_left (fun t b => if f b then radd t (asg_weight R rmul rone wv b) else t) l t =
+    radd t (wmc_sum wv f l).
+  Proof.
+    revert t; induction l as [|b l' IH]; intros t; cbn [fold_left wmc_sum fold_right].
+    - symmetry; apply radd_0_r.
+    - rewrite IH. fold (wmc_sum wv f l'). rewrite asg_weight_spec.
+      destruct (f b); [rewrite radd_assoc; reflexivity|rewrite radd_0_l; reflexivity].
+  Qed.
+
+  Lemma weight_vec_length w i n wv : weight_vec R w i n = Some wv -> length wv = n.
+  Proof.
+    revert i wv; induction n as [|k IH]; intros i wv H; cbn [weight_vec] in H.
+    - inversion H; reflexivity.
+    - destruct (nth_error w i) as [[x|]|]; try discriminate.
+      destruct (weight_vec R w (S i) k) as [r|] eqn:E; [|discriminate].
+      inversion H; subst. cbn [length]. f_equal. eapply IH, E.
+  Qed.
+
+  Lemma weight_vec_nth w i n wv j x :
+    weight_vec R w i n = Some wv -> nth_error wv j = Some x -> nth_error w (i + j) = Some (Some x).
+  Proof.
+    revert i wv j; induction n as [|k IH]; intros i wv j H Hj; cbn [weight_vec] in H.
+    - inversion H; subst. destruct j; discriminate.
+    - destruct (nth_error w i) as [[y|]|] eqn:Ei; try discriminate.
+      destruct (weight_vec R w (S i) k) as [r|] eqn:E; [|discriminate].
+      inversion H; subst. destruct j as [|j']; cbn [nth_error] in Hj.
+      + inversion Hj; subst. rewrite Nat.add_0_r. exact Ei.
+      + replace (i + S j')%nat with (S i + j')%nat by lia. eapply IH; eauto.
+  Qed.
+
+  Lemma weight_vec_total w i n :
+    (forall j, (j < n)%nat -> exists x, nth_error w (i + j) = Some (Some x)) ->
+    exists wv, weight_vec R w i n = Some wv.
+  Proof.
+    revert i; induction n as [|k IH]; intros i H; cbn [weight_vec].
+    - eexists; reflexivity.
+    - destruct (H 0%nat ltac:(lia)) as [x Hx]. rewrite Nat.add_0_r in Hx. rewrite Hx.
+      destruct (IH (S i)) as [r Hr].
+      + intros j Hj. destruct (H (S j) ltac:(lia)) as [y Hy].
+        exists y. replace (S i + j)%nat with (i + S j)%nat by lia. exact Hy.
+      + rewrite Hr. eexists; reflexivity.
+  Qed.
+
+  Lemma weight_vec_missing w i n j :
+    (j < n)%nat -> (nth_error w (i + j) = None \/ nth_error w (i + j) = Some None) ->
+    weight_vec R w i n = None.
+  Proof.
+    revert i j; induction n as [|k IH]; intros i j Hj Hm; [lia|]. cbn [weight_vec].
+    destruct j as [|j'].
+    - rewrite Nat.add_0_r in Hm. destruct Hm as [-> | ->]; reflexivity.
+    - destruct (nth_error w i) as [[x|]|]; try reflexivity.
+      rewrite (IH (S i) j'); [reflexivity|lia|].
+      replace (S i + j')%nat with (i + S j')%nat by lia. exact Hm.
+  Qed.
+
+  (* the brute-force count is the semiring sum over all assignments of the variables
+     0..num_vars-1; it panics exactly when one of those variables has no weight *)
+  Theorem wmc_bruteforce_spec cs w :
+    let c := cnf_new cs in
+    let n := N.to_nat (num_vars c) in
+    (forall wv, weight_vec R w 0 n = Some wv ->
+       wmc R radd rmul rzero rone c w = Some (wmc_spec n wv (fun a => cnf_sem (asg_of_list a) cs))) /\
+    (weight_vec R w 0 n = None -> wmc R radd rmul rzero rone c w = None).
+  Proof.
+    intros c n. split.
+    - intros wv Hwv. unfold wmc. fold c n. rewrite Hwv.
+      destruct (all_asg_chain n) as [rest [E Hc]].
+      pose proof (all_asg_length n) as HL. rewrite E in HL. cbn [length] in HL.
+      assert (Hev : forall b, In b (all_asg n) -> cnf_eval_impl c b = Some (cnf_sem (asg_of_list b) cs)).
+      { intros b Hb. apply all_asg_In in Hb. apply (proj1 (eval_spec cs b)). fold c. unfold n in Hb. lia. }
+      cbn [wmc_loop ai_new ai_next ai_cur ai_n].
+      rewrite (Hev (repeat false n)) by (rewrite E; left; reflexivity).
+      unfold wmc_spec. rewrite E. cbn [wmc_sum fold_right].
+      fold (wmc_sum wv (fun a => cnf_sem (asg_of_list a) cs) rest).
+      destruct (cnf_sem (asg_of_list (repeat false n)) cs).
+      + unfold n. rewrite (wmc_loop_chain c wv (fun a => cnf_sem (asg_of_list a) cs) rest); auto; try (fold n; lia).
+        * rewrite fold_left_sum, asg_weight_spec, radd_0_l. reflexivity.
+        * intros b Hb. apply Hev. rewrite E. right; exact Hb.
+      + unfold n. rewrite (wmc_loop_chain c wv (fun a => cnf_sem (asg_of_list a) cs) rest); auto; try (fold n; lia).
+        * rewrite fold_left_sum. reflexivity.
+        * intros b Hb. apply Hev. rewrite E. right; exact Hb.
+    - intros H. unfold wmc. fold c n. rewrite H. reflexivity.
+  Qed.
+
+  (* D6: a formula without clauses has no variables and weight one *)
+  Corollary wmc_empty_formula w : wmc R radd rmul rzero rone (cnf_new []) w = Some rone.
+  Proof.
+    destruct (wmc_bruteforce_spec [] w) as [H _]. cbn in H. rewrite (H [] eq_refl).
+    unfold wmc_spec, wmc_sum, weight_spec. cbn. apply radd_0_r.
+  Qed.
+
+  Lemma wmc_sum_false wv f l : (forall a, f a = false) -> wmc_sum wv f l = rzero.
+  Proof.
+    intros Hf. induction l as [|a l' IH]; [reflexivity|].
+    cbn [wmc_sum fold_right]. fold (wmc_sum wv f l'). rewrite Hf, IH. apply radd_0_l.
+  Qed.
+
+  (* a formula containing the empty clause has weight zero *)
+  Corollary wmc_empty_clause cs w wv :
+    In [] cs -> weight_vec R w 0 (N.to_nat (num_vars (cnf_new cs))) = Some wv ->
+    wmc R radd rmul rzero rone (cnf_new cs) w = Some rzero.
+  Proof.
+    intros Hin Hwv. destruct (wmc_bruteforce_spec cs w) as [H _]. rewrite (H wv Hwv).
+    f_equal. apply wmc_sum_false. intros a.
+    unfold cnf_sem. apply not_true_is_false. intros Ht. rewrite forallb_forall in Ht.
+    specialize (Ht [] Hin). discriminate.
+  Qed.
+End WmcProofs.
